@@ -81,6 +81,12 @@ def make_trees(specgen_valid):
         {"name": "EIFRecord", "kind": "struct", "dir": "pub", "family": "", "action": "", "code": [field("v", "Vector2D"), field("n", "NPCType")], "rt": True},
     ]
     trees.append(("sibling-references", tB, pB))
+    # D / E: references INTO the directories where packets live, from a file that is imported before them (known findings F9 / F10)
+    tD = {k: dict(v) for k, v in lib.items()}
+    S_ = lambda name, d, *code: {"name": name, "kind": "struct", "dir": d, "family": "", "action": "", "code": list(code), "rt": True}
+    pk = {"name": "TalkRequestClientPacket", "kind": "packet", "dir": "net/client", "family": "Talk", "action": "Request", "code": [field("m", "string")], "rt": True}
+    trees.append(("map-refers-to-net-client", tD, [S_("ByteCoords", "net/client", field("x", "char")), S_("Emf", "map", field("c", "ByteCoords")), dict(pk)]))
+    trees.append(("net-refers-to-net-client", {k: dict(v) for k, v in lib.items()}, [S_("ByteCoords", "net/client", field("x", "char")), S_("Hdr", "net", field("c", "ByteCoords")), dict(pk)]))
     # C: SpecGen programs spread over the files
     tC = {k: dict(v) for k, v in lib.items()}
     pC = []
@@ -235,12 +241,12 @@ def run(tier, corrupt=False):
                 raise MachineryError("export_driver crashed: " + p.stderr[-800:])
             ex = json.loads(p.stdout.strip().splitlines()[-1])
             if ex["import_error"]:
-                v.violation(f"tree {tname}: package not importable: {ex['import_error'][:120]}", f"import eolib fails for valid tree {tname}: {ex['import_error']}", {"tree": tname, "trace": ex.get("trace")})
+                v.violation(f"tree {tname}: package not importable ({ex['import_error'].split(':')[0]})", f"import eolib fails for valid tree {tname}: {ex['import_error']}", {"tree": tname, "trace": ex.get("trace")})
             for c in ex["classes"]:
                 nclasses += 1
                 missing = [w for w in ("home", "subpackage", "protocol", "top") if not c[w]]
                 if missing or c["err"]:
-                    v.violation(f"tree {tname}: class {c['name']} ({c['dir'] or 'root'}) not exported from {missing} {c['err'][:60]}",
+                    v.violation(f"tree {tname}: class {c['name']} ({c['dir'] or 'root'}) not exported from {missing}" + (f" {c['err'].split(':')[0]}" if c["err"] else ""),
                                 f"declared class {c['name']} is not the same object at: {missing} {c['err']}", {"tree": tname, "class": c})
             cov["trees"].append({"name": tname, "files": len(mt), "types": sum(len(f["types"]) for f in mt), "orders_from_tlc": len(orders), "configurations": len(configs),
                                  "model_states": r.distinct})
